@@ -147,6 +147,19 @@ def to_netcdf_with_fixes(
     # Fix default xarray behaviour around automatic _FillValues
     disable_default_fill_value(dataset)
 
+    # An `encoding` argument replaces the whole encoding of the variables it names,
+    # including the marker set just above. Carry the marker over.
+    if kwargs.get('encoding'):
+        kwargs['encoding'] = {
+            name: (
+                {'_FillValue': None, **encoding}
+                if name in dataset.variables
+                and dataset.variables[name].encoding.get('_FillValue', 0) is None
+                else encoding
+            )
+            for name, encoding in kwargs['encoding'].items()
+        }
+
     dataset.to_netcdf(path, **kwargs)
     if time_variable is not None:
         fix_time_units_for_ems(path, data_array_to_name(dataset, time_variable))
